@@ -1,6 +1,9 @@
 package props
 
-import "testing"
+import (
+	"strings"
+	"testing"
+)
 
 func lab(e *Exec, ls ...string) bool {
 	for _, l := range ls {
@@ -28,136 +31,154 @@ const genRule = "scripts drawn by rapid: 2-6 connection slots, initial joins, <=
 
 var refusals = []string{"entity_del_unknown", "entity_del_foreign", "comp_add_refused", "comp_del_absent", "sub_unregistered", "action_refused", "asset_refused", "join_refused_not_found", "join_already_joined", "custom_too_large"}
 
-func TestC01Model(t *testing.T) {
-	ModelCheck{Prop: "C01", Part: "H", Profile: prof("c01", map[Op]int{OpJoin: 7, OpPose: 10, OpTick: 10}),
-		Rule: genRule + "non-trivial = distinct script in which some observer applied >=3 broadcasts of >=2 kinds to its replica and a later joiner was handed a non-empty session (snapshot compared with the model)",
-		NT: func(e *Exec, sc Script) bool {
-			return lab(e, "observer_3_broadcasts_2_kinds", "join_existing_with_entities")
-		},
-	}.Run(t)
-}
-
-func TestC02Model(t *testing.T) {
-	ModelCheck{Prop: "C02", Part: "H", Profile: prof("c02", map[Op]int{OpJoin: 4, OpClose: 3, OpEntityAdd: 16, OpCustom: 8, OpPose: 10, OpTick: 10}),
-		Rule: genRule + "non-trivial = distinct script with an accepted change relayed to >=2 other members and >=1 refused request",
-		NT:   func(e *Exec, sc Script) bool { return lab(e, "relay_to_2plus") && anyLab(e, refusals...) },
-	}.Run(t)
-}
-
-func TestC04Model(t *testing.T) {
-	ModelCheck{
-		Prop: "C04", Part: "H", Profile: prof("c04", nil),
-		Rule: genRule + "non-trivial = distinct script that reaches >=4 distinct (request kind, outcome) classes incl. >=1 refusal and >=1 request from a connection that is in no session",
-		NT: func(e *Exec, sc Script) bool {
-			n := 0
-			for _, l := range []string{"entity_add", "entity_del", "entity_del_unknown", "entity_del_foreign", "comp_add", "comp_add_refused", "comp_del", "comp_del_absent", "sub", "sub_unregistered", "unsub", "type_add", "type_add_again", "action_set", "action_refused", "asset_add", "asset_refused", "join_refused_not_found", "join_already_joined", "custom_too_large", "latency_bad_count", "receipt_accepted", "receipt_empty_field", "comp_list", "dagaz_query"} {
-				if e.Labels[l] > 0 {
-					n++
+// checkFor returns the model-based check of a property (shared by the handler-level and wire parts).
+func checkFor(prop string) ModelCheck {
+	switch prop {
+	case "C01":
+		return ModelCheck{Prop: "C01", Part: "H", Profile: prof("c01", map[Op]int{OpJoin: 7, OpPose: 10, OpTick: 10}),
+			Rule: genRule + "non-trivial = distinct script in which some observer applied >=3 broadcasts of >=2 kinds to its replica and a later joiner was handed a non-empty session (snapshot compared with the model)",
+			NT: func(e *Exec, sc Script) bool {
+				return lab(e, "observer_3_broadcasts_2_kinds", "join_existing_with_entities")
+			},
+		}
+	case "C02":
+		return ModelCheck{Prop: "C02", Part: "H", Profile: prof("c02", map[Op]int{OpJoin: 4, OpClose: 3, OpEntityAdd: 16, OpCustom: 8, OpPose: 10, OpTick: 10}),
+			Rule: genRule + "non-trivial = distinct script with an accepted change relayed to >=2 other members and >=1 refused request",
+			NT:   func(e *Exec, sc Script) bool { return lab(e, "relay_to_2plus") && anyLab(e, refusals...) },
+		}
+	case "C04":
+		return ModelCheck{
+			Prop: "C04", Part: "H", Profile: prof("c04", nil),
+			Rule: genRule + "non-trivial = distinct script that reaches >=4 distinct (request kind, outcome) classes incl. >=1 refusal and >=1 request from a connection that is in no session",
+			NT: func(e *Exec, sc Script) bool {
+				n := 0
+				for _, l := range []string{"entity_add", "entity_del", "entity_del_unknown", "entity_del_foreign", "comp_add", "comp_add_refused", "comp_del", "comp_del_absent", "sub", "sub_unregistered", "unsub", "type_add", "type_add_again", "action_set", "action_refused", "asset_add", "asset_refused", "join_refused_not_found", "join_already_joined", "custom_too_large", "latency_bad_count", "receipt_accepted", "receipt_empty_field", "comp_list", "dagaz_query"} {
+					if e.Labels[l] > 0 {
+						n++
+					}
 				}
-			}
-			return n >= 4 && anyLab(e, refusals...) && lab(e, "not_joined_request")
-		},
-	}.Run(t)
+				return n >= 4 && anyLab(e, refusals...) && lab(e, "not_joined_request")
+			},
+		}
+	case "C05":
+		p := prof("c05", map[Op]int{OpEntityAdd: 18, OpEntityDel: 12, OpPose: 14, OpAsset: 12, OpClose: 4, OpJoin: 6, OpTick: 10})
+		return ModelCheck{Prop: "C05", Part: "H", Profile: p,
+			Rule: genRule + "weights favour entity delete / pose / asset requests; non-trivial = distinct script with >=1 foreign attempt (delete, pose or asset) on a live entity and >=1 attempt on an entity whose owner has left",
+			NT: func(e *Exec, sc Script) bool {
+				return anyLab(e, "entity_del_foreign", "pose_foreign", "asset_foreign") && lab(e, "foreign_attempt_owner_gone")
+			},
+		}
+	case "C06":
+		p := prof("c06", map[Op]int{OpEntityAdd: 18, OpClose: 6, OpJoin: 8, OpCompAdd: 12, OpAction: 10, OpAsset: 10, OpSub: 8, OpNoTS: 1})
+		return ModelCheck{Prop: "C06", Part: "H", Profile: p,
+			Rule: genRule + "departures by close, handler error, frame without timestamp and session switch; non-trivial = distinct script in which a leaver owns >=1 persistent and >=1 non-persistent entity with attachments while another member remains",
+			NT:   func(e *Exec, sc Script) bool { return lab(e, "departure_rich") },
+		}
+	case "C07":
+		p := prof("c07", map[Op]int{OpJoin: 30, OpClose: 12, OpEntityAdd: 6})
+		p.Setup = 3
+		return ModelCheck{Prop: "C07", Part: "H", Profile: p, Registry: true,
+			Rule: genRule + "weights favour join/switch/close cycles; after every step the registry (id resolution for live and ended sessions), the session gauge and the number of frame-worker goroutines are compared with the model; non-trivial = distinct script with >=2 session ids reused after their session ended",
+			NT:   func(e *Exec, sc Script) bool { return e.Labels["session_id_reused"] >= 2 },
+		}
+	case "C10":
+		p := prof("c10", map[Op]int{OpJoin: 20, OpClose: 8, OpEntityAdd: 16, OpEntityDel: 10, OpTypeAdd: 10, OpAsset: 10})
+		return ModelCheck{Prop: "C10", Part: "H", Profile: p,
+			Rule: genRule + "weights favour allocations and releases (session create/end, joins, entity add/delete, type registration, asset add); non-trivial = distinct script with a reused session id, >=1 entity deletion followed by further entity adds, and >=2 type registrations",
+			NT: func(e *Exec, sc Script) bool {
+				return lab(e, "session_id_reused", "entity_del") && e.Labels["entity_add"]+e.Labels["entity_add_persistent"] >= 3 && e.Labels["type_add"] >= 2
+			},
+		}
+	case "C12":
+		p := prof("c12", map[Op]int{OpTypeAdd: 10, OpCompAdd: 18, OpCompDel: 10, OpCompUpdate: 14, OpCompList: 8, OpSub: 8, OpEntityDel: 8, OpGetName: 4, OpGetID: 4, OpTick: 12, OpJoin: 4, OpClose: 2})
+		return ModelCheck{Prop: "C12", Part: "H", Profile: p,
+			Rule: genRule + "weights favour component requests; non-trivial = distinct script with an update of a never-added component while the type has a subscriber, a cascade (entity with components removed) and a list after a delete",
+			NT: func(e *Exec, sc Script) bool {
+				return lab(e, "comp_update_absent_with_subscriber", "comp_list_after_delete") && anyLab(e, "entity_del_with_attachments", "departure_removes_attachments")
+			},
+		}
+	case "C13":
+		p := prof("c13", map[Op]int{OpTypeAdd: 10, OpCompAdd: 16, OpCompDel: 8, OpCompUpdate: 16, OpSub: 16, OpUnsub: 8, OpTick: 14, OpJoin: 4, OpClose: 3})
+		return ModelCheck{Prop: "C13", Part: "H", Profile: p,
+			Rule: genRule + "weights favour subscribe/unsubscribe and component changes; non-trivial = distinct script with >=2 subscribers of one type and a component change of a type after a subscriber of it unsubscribed or left",
+			NT:   func(e *Exec, sc Script) bool { return lab(e, "two_subscribers", "comp_change_after_unsubscribe") },
+		}
+	case "C14":
+		p := prof("c14", map[Op]int{OpCustom: 40, OpJoin: 6, OpClose: 3})
+		p.BigBody = 45
+		p.Setup = 2
+		return ModelCheck{Prop: "C14", Part: "H", Profile: p,
+			Rule: genRule + "weights favour custom messages, 45% with a body of 10238..10242/20480/65536 bytes; non-trivial = distinct script with a body within 2 bytes of the limit (either side) or a recipient list holding a duplicate, a stranger and the sender together",
+			NT: func(e *Exec, sc Script) bool {
+				return anyLab(e, "custom_at_limit", "custom_too_large", "custom_dup_stranger_self")
+			},
+		}
+	case "C16":
+		p := prof("c16", map[Op]int{OpAction: 30, OpAsset: 18, OpEntityAdd: 14, OpEntityDel: 8, OpJoin: 7, OpClose: 4})
+		p.Modules = []string{"vikja", "odal"}
+		return ModelCheck{Prop: "C16", Part: "H", Profile: p,
+			Rule: genRule + "vikja+odal loaded, weights favour entity actions (timestamps 0, 1, 5, 7, 10, year 9999, -1; equal and decreasing) and asset adds; non-trivial = distinct script with an older action refused, an asset replaced and a later joiner handed the module state",
+			NT: func(e *Exec, sc Script) bool {
+				return lab(e, "action_older_refused", "asset_replaced", "join_existing_with_attachments")
+			},
+		}
+	case "C11":
+		p := prof("c11", map[Op]int{OpPose: 40, OpTick: 22, OpEntityAdd: 14, OpEntityDel: 8, OpJoin: 6, OpClose: 3})
+		p.NilSub = true
+		return ModelCheck{Prop: "C11", Part: "H", Profile: p,
+			Rule: genRule + "weights favour pose updates (sequence number in px; arbitrary float bit patterns; foreign, unknown, deleted entities; absent pose) and frame ticks; per frame exactly the latest update of each owned live entity must be applied and relayed once; non-trivial = distinct script in which >=2 updates of one entity fell into one frame and an update was still pending when its entity was deleted or named an unknown/foreign entity",
+			NT: func(e *Exec, sc Script) bool {
+				return lab(e, "pose_coalesced", "pose_applied") && anyLab(e, "pose_unknown_entity", "pose_foreign", "pose_without_pose")
+			},
+		}
+	case "C18":
+		p := prof("c18", map[Op]int{OpLatency: 14, OpPingResp: 70, OpJoin: 3, OpClose: 1, OpTick: 3, OpEntityAdd: 3})
+		p.Setup = 2
+		p.MinSteps, p.MaxSteps = 25, 90
+		p.MaxConns = 3
+		return ModelCheck{Prop: "C18", Part: "H", Profile: p,
+			Rule: genRule + "weights favour signed-latency requests (rounds 0,2,3,4,5,8,50,51,60,2^32-1; empty and non-empty wallet) and ping responses (outstanding id 70%, an id answered before 15%, unknown id 15%) sent after a scripted delay of 1us..1s on the fake clock; the final response is checked: signature recovers to the server wallet over exactly the returned bytes, client id, session UUID, wallet, round count, ping ids == issued ids, 0<=min<=mean<=max, p95/last in [min,max], last == delay of the final round; non-trivial = distinct script with a completed measurement with >=3 distinct delays and >=1 misbehaving answer (duplicate, unknown, replay after completion, restart)",
+			NT: func(e *Exec, sc Script) bool {
+				return lab(e, "latency_complete", "latency_3_distinct_delays") && anyLab(e, "ping_answered_again", "ping_unknown_id", "ping_replay_after_completion", "latency_restart")
+			},
+		}
+	}
+	panic("no model check for " + prop)
 }
 
-func TestC05Model(t *testing.T) {
-	p := prof("c05", map[Op]int{OpEntityAdd: 18, OpEntityDel: 12, OpPose: 14, OpAsset: 12, OpClose: 4, OpJoin: 6, OpTick: 10})
-	ModelCheck{Prop: "C05", Part: "H", Profile: p,
-		Rule: genRule + "weights favour entity delete / pose / asset requests; non-trivial = distinct script with >=1 foreign attempt (delete, pose or asset) on a live entity and >=1 attempt on an entity whose owner has left",
-		NT: func(e *Exec, sc Script) bool {
-			return anyLab(e, "entity_del_foreign", "pose_foreign", "asset_foreign") && lab(e, "foreign_attempt_owner_gone")
-		},
-	}.Run(t)
-}
+func TestC01Model(t *testing.T) { checkFor("C01").Run(t) }
+func TestC01Wire(t *testing.T)  { wire(checkFor("C01")).Run(t) }
+func TestC02Model(t *testing.T) { checkFor("C02").Run(t) }
+func TestC02Wire(t *testing.T)  { wire(checkFor("C02")).Run(t) }
+func TestC04Model(t *testing.T) { checkFor("C04").Run(t) }
+func TestC04Wire(t *testing.T)  { wire(checkFor("C04")).Run(t) }
+func TestC05Model(t *testing.T) { checkFor("C05").Run(t) }
+func TestC05Wire(t *testing.T)  { wire(checkFor("C05")).Run(t) }
+func TestC06Model(t *testing.T) { checkFor("C06").Run(t) }
+func TestC06Wire(t *testing.T)  { wire(checkFor("C06")).Run(t) }
+func TestC07Model(t *testing.T) { checkFor("C07").Run(t) }
+func TestC07Wire(t *testing.T)  { wire(checkFor("C07")).Run(t) }
+func TestC10Model(t *testing.T) { checkFor("C10").Run(t) }
+func TestC10Wire(t *testing.T)  { wire(checkFor("C10")).Run(t) }
+func TestC12Model(t *testing.T) { checkFor("C12").Run(t) }
+func TestC12Wire(t *testing.T)  { wire(checkFor("C12")).Run(t) }
+func TestC13Model(t *testing.T) { checkFor("C13").Run(t) }
+func TestC13Wire(t *testing.T)  { wire(checkFor("C13")).Run(t) }
+func TestC14Model(t *testing.T) { checkFor("C14").Run(t) }
+func TestC14Wire(t *testing.T)  { wire(checkFor("C14")).Run(t) }
+func TestC16Model(t *testing.T) { checkFor("C16").Run(t) }
+func TestC16Wire(t *testing.T)  { wire(checkFor("C16")).Run(t) }
+func TestC11Model(t *testing.T) { checkFor("C11").Run(t) }
+func TestC11Wire(t *testing.T)  { wire(checkFor("C11")).Run(t) }
+func TestC18Model(t *testing.T) { checkFor("C18").Run(t) }
+func TestC18Wire(t *testing.T)  { wire(checkFor("C18")).Run(t) }
 
-func TestC06Model(t *testing.T) {
-	p := prof("c06", map[Op]int{OpEntityAdd: 18, OpClose: 6, OpJoin: 8, OpCompAdd: 12, OpAction: 10, OpAsset: 10, OpSub: 8, OpNoTS: 1})
-	ModelCheck{Prop: "C06", Part: "H", Profile: p,
-		Rule: genRule + "departures by close, handler error, frame without timestamp and session switch; non-trivial = distinct script in which a leaver owns >=1 persistent and >=1 non-persistent entity with attachments while another member remains",
-		NT:   func(e *Exec, sc Script) bool { return lab(e, "departure_rich") },
-	}.Run(t)
-}
-
-func TestC07Model(t *testing.T) {
-	p := prof("c07", map[Op]int{OpJoin: 30, OpClose: 12, OpEntityAdd: 6})
-	p.Setup = 3
-	ModelCheck{Prop: "C07", Part: "H", Profile: p, Registry: true,
-		Rule: genRule + "weights favour join/switch/close cycles; after every step the registry (id resolution for live and ended sessions), the session gauge and the number of frame-worker goroutines are compared with the model; non-trivial = distinct script with >=2 session ids reused after their session ended",
-		NT:   func(e *Exec, sc Script) bool { return e.Labels["session_id_reused"] >= 2 },
-	}.Run(t)
-}
-
-func TestC10Model(t *testing.T) {
-	p := prof("c10", map[Op]int{OpJoin: 20, OpClose: 8, OpEntityAdd: 16, OpEntityDel: 10, OpTypeAdd: 10, OpAsset: 10})
-	ModelCheck{Prop: "C10", Part: "H", Profile: p,
-		Rule: genRule + "weights favour allocations and releases (session create/end, joins, entity add/delete, type registration, asset add); non-trivial = distinct script with a reused session id, >=1 entity deletion followed by further entity adds, and >=2 type registrations",
-		NT: func(e *Exec, sc Script) bool {
-			return lab(e, "session_id_reused", "entity_del") && e.Labels["entity_add"]+e.Labels["entity_add_persistent"] >= 3 && e.Labels["type_add"] >= 2
-		},
-	}.Run(t)
-}
-
-func TestC12Model(t *testing.T) {
-	p := prof("c12", map[Op]int{OpTypeAdd: 10, OpCompAdd: 18, OpCompDel: 10, OpCompUpdate: 14, OpCompList: 8, OpSub: 8, OpEntityDel: 8, OpGetName: 4, OpGetID: 4, OpTick: 12, OpJoin: 4, OpClose: 2})
-	ModelCheck{Prop: "C12", Part: "H", Profile: p,
-		Rule: genRule + "weights favour component requests; non-trivial = distinct script with an update of a never-added component while the type has a subscriber, a cascade (entity with components removed) and a list after a delete",
-		NT: func(e *Exec, sc Script) bool {
-			return lab(e, "comp_update_absent_with_subscriber", "comp_list_after_delete") && anyLab(e, "entity_del_with_attachments", "departure_removes_attachments")
-		},
-	}.Run(t)
-}
-
-func TestC13Model(t *testing.T) {
-	p := prof("c13", map[Op]int{OpTypeAdd: 10, OpCompAdd: 16, OpCompDel: 8, OpCompUpdate: 16, OpSub: 16, OpUnsub: 8, OpTick: 14, OpJoin: 4, OpClose: 3})
-	ModelCheck{Prop: "C13", Part: "H", Profile: p,
-		Rule: genRule + "weights favour subscribe/unsubscribe and component changes; non-trivial = distinct script with >=2 subscribers of one type and a component change of a type after a subscriber of it unsubscribed or left",
-		NT:   func(e *Exec, sc Script) bool { return lab(e, "two_subscribers", "comp_change_after_unsubscribe") },
-	}.Run(t)
-}
-
-func TestC14Model(t *testing.T) {
-	p := prof("c14", map[Op]int{OpCustom: 40, OpJoin: 6, OpClose: 3})
-	p.BigBody = 45
-	p.Setup = 2
-	ModelCheck{Prop: "C14", Part: "H", Profile: p,
-		Rule: genRule + "weights favour custom messages, 45% with a body of 10238..10242/20480/65536 bytes; non-trivial = distinct script with a body within 2 bytes of the limit (either side) or a recipient list holding a duplicate, a stranger and the sender together",
-		NT: func(e *Exec, sc Script) bool {
-			return anyLab(e, "custom_at_limit", "custom_too_large", "custom_dup_stranger_self")
-		},
-	}.Run(t)
-}
-
-func TestC16Model(t *testing.T) {
-	p := prof("c16", map[Op]int{OpAction: 30, OpAsset: 18, OpEntityAdd: 14, OpEntityDel: 8, OpJoin: 7, OpClose: 4})
-	p.Modules = []string{"vikja", "odal"}
-	ModelCheck{Prop: "C16", Part: "H", Profile: p,
-		Rule: genRule + "vikja+odal loaded, weights favour entity actions (timestamps 0, 1, 5, 7, 10, year 9999, -1; equal and decreasing) and asset adds; non-trivial = distinct script with an older action refused, an asset replaced and a later joiner handed the module state",
-		NT: func(e *Exec, sc Script) bool {
-			return lab(e, "action_older_refused", "asset_replaced", "join_existing_with_attachments")
-		},
-	}.Run(t)
-}
-
-func TestC11Model(t *testing.T) {
-	p := prof("c11", map[Op]int{OpPose: 40, OpTick: 22, OpEntityAdd: 14, OpEntityDel: 8, OpJoin: 6, OpClose: 3})
-	p.NilSub = true
-	ModelCheck{Prop: "C11", Part: "H", Profile: p,
-		Rule: genRule + "weights favour pose updates (sequence number in px; arbitrary float bit patterns; foreign, unknown, deleted entities; absent pose) and frame ticks; per frame exactly the latest update of each owned live entity must be applied and relayed once; non-trivial = distinct script in which >=2 updates of one entity fell into one frame and an update was still pending when its entity was deleted or named an unknown/foreign entity",
-		NT: func(e *Exec, sc Script) bool {
-			return lab(e, "pose_coalesced", "pose_applied") && anyLab(e, "pose_unknown_entity", "pose_foreign", "pose_without_pose")
-		},
-	}.Run(t)
-}
-
-func TestC18Model(t *testing.T) {
-	p := prof("c18", map[Op]int{OpLatency: 14, OpPingResp: 70, OpJoin: 3, OpClose: 1, OpTick: 3, OpEntityAdd: 3})
-	p.Setup = 2
-	p.MinSteps, p.MaxSteps = 25, 90
-	p.MaxConns = 3
-	ModelCheck{Prop: "C18", Part: "H", Profile: p,
-		Rule: genRule + "weights favour signed-latency requests (rounds 0,2,3,4,5,8,50,51,60,2^32-1; empty and non-empty wallet) and ping responses (outstanding id 70%, an id answered before 15%, unknown id 15%) sent after a scripted delay of 1us..1s on the fake clock; the final response is checked: signature recovers to the server wallet over exactly the returned bytes, client id, session UUID, wallet, round count, ping ids == issued ids, 0<=min<=mean<=max, p95/last in [min,max], last == delay of the final round; non-trivial = distinct script with a completed measurement with >=3 distinct delays and >=1 misbehaving answer (duplicate, unknown, replay after completion, restart)",
-		NT: func(e *Exec, sc Script) bool {
-			return lab(e, "latency_complete", "latency_3_distinct_delays") && anyLab(e, "ping_answered_again", "ping_unknown_id", "ping_replay_after_completion", "latency_restart")
-		},
-	}.Run(t)
+// wire turns a handler-level check into the same check on the wire driver
+// (real websocket.Handle, production decorators, real codec over net.Pipe).
+func wire(mc ModelCheck) ModelCheck {
+	mc.Part = "W"
+	mc.Wire = true
+	mc.Registry = false
+	mc.Rule = strings.Replace(mc.Rule, "run on the handler-level driver", "run on the wire driver (real websocket.Handle + HandlerWithLogs + HandlerWithMetrics over net.Pipe in a synctest bubble)", 1)
+	return mc
 }
